@@ -1,0 +1,55 @@
+//go:build verif
+// +build verif
+
+package band
+
+// Contracts for /verif (tool: gov); comments only.
+
+// ---------------------------------------------------------------------------
+// C15: channel-plan state machine.  The postconditions describe the WHOLE channel list
+// (every other channel is unchanged), so they are inductive over any sequence of
+// AddChannel / EnableUplinkChannelIndex / DisableUplinkChannelIndex calls with any arguments.
+// ---------------------------------------------------------------------------
+
+//@ func (*band).AddChannel
+//@   props C15
+//@   requires separate: !sameregion(b.uplinkChannels, b.downlinkChannels) && !sameregion(b, b.uplinkChannels) && !sameregion(b, b.downlinkChannels)
+//@   modifies b.uplinkChannels, b.downlinkChannels, b.uplinkChannels[len(b.uplinkChannels):cap(b.uplinkChannels)], b.downlinkChannels[len(b.downlinkChannels):cap(b.downlinkChannels)]
+//@   ensures separate: !sameregion(b.uplinkChannels, b.downlinkChannels) && !sameregion(b, b.uplinkChannels) && !sameregion(b, b.downlinkChannels)
+//@   ensures gate: (err == nil) == old(b.supportsExtraChannels)
+//@   ensures appended: err == nil ==> len(b.uplinkChannels) == old(len(b.uplinkChannels)) + 1 && len(b.downlinkChannels) == old(len(b.downlinkChannels)) + 1
+//@   ensures new-uplink: err == nil ==> b.uplinkChannels[old(len(b.uplinkChannels))].Frequency == frequency && b.uplinkChannels[old(len(b.uplinkChannels))].MinDR == minDR && b.uplinkChannels[old(len(b.uplinkChannels))].MaxDR == maxDR && b.uplinkChannels[old(len(b.uplinkChannels))].custom && b.uplinkChannels[old(len(b.uplinkChannels))].enabled == (frequency != 0)
+//@   ensures new-downlink: err == nil ==> b.downlinkChannels[old(len(b.downlinkChannels))] == b.uplinkChannels[old(len(b.uplinkChannels))]
+//@   ensures others-uplink: forall i int :: 0 <= i && i < old(len(b.uplinkChannels)) ==> b.uplinkChannels[i] == old(b.uplinkChannels[i])
+//@   ensures others-downlink: forall i int :: 0 <= i && i < old(len(b.downlinkChannels)) ==> b.downlinkChannels[i] == old(b.downlinkChannels[i])
+//@   ensures rejected: err != nil ==> len(b.uplinkChannels) == old(len(b.uplinkChannels)) && len(b.downlinkChannels) == old(len(b.downlinkChannels))
+
+//@ func (*band).DisableUplinkChannelIndex
+//@   props C15 C12
+//@   modifies b.uplinkChannels[channel].enabled
+//@   ensures range: (err == nil) == (0 <= channel && channel < len(b.uplinkChannels))
+//@   ensures effect: err == nil ==> !b.uplinkChannels[channel].enabled
+
+//@ func (*band).EnableUplinkChannelIndex
+//@   props C15 C12
+//@   modifies b.uplinkChannels[channel].enabled
+//@   ensures range: (err == nil) == (0 <= channel && channel < len(b.uplinkChannels))
+//@   ensures effect: err == nil ==> b.uplinkChannels[channel].enabled
+
+//@ func (*band).GetUplinkChannel
+//@   props C15 C12
+//@   modifies nothing
+//@   ensures range: (err == nil) == (0 <= channel && channel < len(b.uplinkChannels))
+//@   ensures value: err == nil ==> result0 == b.uplinkChannels[channel]
+
+//@ func (*band).GetDownlinkChannel
+//@   props C15 C12
+//@   modifies nothing
+//@   ensures range: (err == nil) == (0 <= channel && channel < len(b.downlinkChannels))
+//@   ensures value: err == nil ==> result0 == b.downlinkChannels[channel]
+
+//@ func (*band).GetTXPowerOffset
+//@   props C12 C13
+//@   modifies nothing
+//@   ensures range: (err == nil) == (0 <= txPower && txPower < len(b.txPowerOffsets))
+//@   ensures value: err == nil ==> result0 == b.txPowerOffsets[txPower]
